@@ -95,9 +95,15 @@ def make_atomizer(subst, env, set_names=()):
                     if isinstance(op, (ast.LtE, ast.GtE)):
                         return (f'NotSubset({nm(a_)},{nm(b_)})', False)
                     return (f'NotProperSubset({nm(a_)},{nm(b_)})', False)
-            # {len(b) for b in bools} != {len(properties)}
+            # {len(b) for b in bools} != {len(properties)}   /   set(map(len, bools)) != {len(properties)}
             if isinstance(op, (ast.Eq, ast.NotEq)):
                 for a, b in ((l, r), (r, l)):
+                    if (isinstance(a, ast.Call) and isinstance(a.func, ast.Name) and a.func.id in ('set', 'frozenset') and len(a.args) == 1
+                            and isinstance(a.args[0], ast.Call) and name_is(a.args[0].func, 'map') and len(a.args[0].args) == 2
+                            and name_is(a.args[0].args[0], 'len') and isinstance(b, ast.Set) and len(b.elts) == 1 and _len_of(b.elts[0]) is not None):
+                        rows, cols = nm(a.args[0].args[1]), nm(_len_of(b.elts[0]))
+                        if rows and cols:
+                            return (f'RowLensNe({rows},{cols})', isinstance(op, ast.NotEq))
                     if (isinstance(a, ast.SetComp) and len(a.generators) == 1 and not a.generators[0].ifs
                             and _len_of(a.elt) is not None and name_is(_len_of(a.elt), getattr(a.generators[0].target, 'id', None))
                             and isinstance(b, ast.Set) and len(b.elts) == 1 and _len_of(b.elts[0]) is not None):
@@ -132,6 +138,14 @@ def make_atomizer(subst, env, set_names=()):
                         return (f'RowLensNe({nm(g.generators[0].iter)},{nm(b)})', True)
                     if name_is(b, var) and nm(a):
                         return (f'RowLensNe({nm(g.generators[0].iter)},{nm(a)})', True)
+            # any(not isinstance(v, str) for v in values)
+            if name_is(f, 'any') and len(n.args) == 1 and isinstance(n.args[0], ast.GeneratorExp):
+                g = n.args[0]
+                t, neg_ = strip_not(g.elt)
+                if (neg_ and len(g.generators) == 1 and not g.generators[0].ifs and isinstance(t, ast.Call) and name_is(t.func, 'isinstance')
+                        and len(t.args) == 2 and name_is(t.args[0], getattr(g.generators[0].target, 'id', None))
+                        and name_is(t.args[1], 'str') and nm(g.generators[0].iter)):
+                    return (f'NonStr({nm(g.generators[0].iter)})', True)
             # all(isinstance(v, str) for v in values)
             if name_is(f, 'all') and len(n.args) == 1 and isinstance(n.args[0], ast.GeneratorExp):
                 g = n.args[0]
